@@ -86,7 +86,7 @@ pub fn run(cfg: &Config) -> i32 {
             None => eprintln!("C15: cannot read scenario {path}"),
         }
     }
-    let draws = cfg.tier.pick(300u64, 5000u64);
+    let draws = cfg.tier.pick(1500u64, 20000u64);
     let ns = schemas.len() as u64;
     let n = ns * draws;
     let total = par_for(cfg, n, |i, l| {
